@@ -31,7 +31,8 @@ type hop struct {
 }
 
 type lifeCase struct {
-	Ops []hop `json:"ops"`
+	Ops     []hop `json:"ops"`
+	DoneCtx bool  `json:"done_ctx,omitempty"` // Start / Close are handed an already cancelled context
 }
 
 // how long a trigger waits for its concurrent Register before it lets Start go on. On the code as it is the
@@ -53,6 +54,9 @@ func runLife(lc lifeCase) (res lifeResult) {
 	var cur []compSpec
 	var comps []app.Component
 	ctx := context.Background()
+	if lc.DoneCtx {
+		ctx = doneCtx()
+	}
 	for _, o := range lc.Ops {
 		switch o.Op {
 		case "reg":
@@ -202,6 +206,7 @@ func genLife(r *vlib.Rand) lifeCase {
 	if r.Chance(2, 3) {
 		lc.Ops = append(lc.Ops, hop{Op: "close"})
 	}
+	lc.DoneCtx = r.Chance(1, 3)
 	return lc
 }
 
